@@ -1,16 +1,31 @@
 """C06 bounded stand-in: t2listing.history() evaluated on the real code against "step through
-every result time and read the cell", on every shipped listing.
+every result time and read the cell", on every shipped listing (tests/listing/*/*/, no *.npy, no *~).
 
 Contracts (each a plain function returning (ok, detail), evaluations counted per contract):
-  terminates   history(selection, short) returns within the per-call time limit
+  terminates   history(selection, short) returns within the per-call limit (CPU seconds of the worker,
+               plus a wall-clock limit); expiry = failure 'timeout <file> <selection> ...'
   shape        a single tuple / a one-item list gives one (times, values) pair, an n-item list
                gives n pairs in selection order
   values       values of item k == [cell(item k) at result time i for every result time i]
-               (fresh reader stepped with index = i; own tokenizer for AUTOUGH2 short output);
-               a connection named in reverse order gives the negated series
+               (oracle: a separate fresh reader stepped with index = i; for AUTOUGH2 short output an own
+               tokenizer of the ESHORT/CSHORT/GSHORT blocks); a connection named in reverse order gives
+               the negated series
   times        the times paired with item k are the times of exactly those result sets
   restore      afterwards index, time, step and every table array are what they were before
-               the call (and what a fresh reader shows at that index)
+               the call (and what the fresh reader showed at that index)
+
+Input space per file (parts; quick = subsample, thorough = all):
+  A  every non-empty subset of its tables in every order (<= 325), one item per table, rows
+     first/last/interior/second, keys by name / integer / reversed name, from every starting index
+     (quick: first, middle, last), short on and off where the file has short output
+  B  per table: rows first/last/second/interior (+ rows of the short tables) x name/int/reversed/negative int
+     x every column (quick: 3), as a single tuple and as a list
+  R  every row of every table (quick: a sample), 8 rows per call in shuffled order
+  C  random selections of 2..9 items: several rows per table out of order, repeated rows and items
+  D  one item per table from every starting index, short on and off
+  E  the same reader opened with skip_tables (every single table, pairs): ordered subsets of the rest
+Each file is cut into jobs run by a pool of 16 worker processes; a worker that outlives the budget
+is killed by the parent ('timeout <file> <selection being evaluated>').
 
 usage: c06_history.py <tier> <seed>
 """
@@ -28,7 +43,7 @@ tier = sys.argv[1] if len(sys.argv) > 1 else 'quick'
 seed = int(sys.argv[2]) if len(sys.argv) > 2 else 0
 QUICK = tier != 'thorough'
 NPROC = 16
-CALL_LIMIT = 2.0 if QUICK else 10.0        # CPU seconds for one history() call / one open (normal: < 0.5)
+CALL_LIMIT = 2.0 if QUICK else 5.0        # CPU seconds for one history() call / one open (normal: < 0.5)
 WALL_FACTOR = 8                            # ... and CALL_LIMIT * WALL_FACTOR seconds of wall clock (blocking hang)
 T_START = time.time()
 DEADLINE = T_START + (36.0 if QUICK else 700.0)   # no new case is started after this (cases left over are counted)
@@ -505,17 +520,25 @@ def gen_cases(ora, rnd):
     return cases
 
 
-def gen_skip_cases(ora, rnd):
+def skip_groups(ntables):
+    """Index sets of the tables left out by skip_tables: every single table, and pairs (quick: a third of them)."""
+    if ntables < 2:
+        return []
+    groups = [(i,) for i in range(ntables)]
+    if ntables > 2:
+        pairs = list(itertools.combinations(range(ntables), 2))
+        groups += pairs if not QUICK else pairs[seed % 3::3]
+    return groups
+
+
+def gen_skip_cases(ora, rnd, group):
     """Part E: the reader is opened with skip_tables; ordered subsets of the tables it still has."""
     tables, n = ora.tables, ora.n
-    if len(tables) < 2:
-        return []
-    skips = [(t,) for t in tables]
-    if len(tables) > 2:
-        pairs = list(itertools.combinations(tables, 2))
-        skips += pairs if not QUICK else pairs[seed % 3::3]
+    groups = skip_groups(len(tables))
+    if group < 999:
+        groups = groups[group:group + 1]               # this job does one set of skipped tables only
     cases = []
-    for skip in skips:
+    for skip in [tuple(tables[i] for i in g) for g in groups]:
         rest = [t for t in tables if t not in skip]
         kmax = len(rest) if not QUICK else 2
         for io, order in enumerate(p for k in range(1, kmax + 1) for sub in itertools.combinations(rest, k) for p in itertools.permutations(sub)):
@@ -559,13 +582,13 @@ def run_job(job, conn, progfile):
         if ora.parse_problem and chunk == 0:
             fail('parse-disagree', '', ora.parse_problem, {'file': rel})
         rnd = random.Random('%d %s' % (seed, rel))
-        cases = [c + ((),) for c in gen_cases(ora, rnd)[chunk::nchunks]] if not skipjob else gen_skip_cases(ora, rnd)
+        cases = [c + ((),) for c in gen_cases(ora, rnd)[chunk::nchunks]] if not skipjob else gen_skip_cases(ora, rnd, -chunk - 1)
         ntimeouts = {}
         run = Runner(ora, progress)
         seen = set()
         nshrunk = 0
         for (part, sel, form, short, start, skip) in cases:
-            if time.time() > DEADLINE or ntimeouts.get(skip, 0) >= (2 if QUICK else 6):
+            if time.time() > DEADLINE or ntimeouts.get(skip, 0) >= (2 if QUICK else 3):
                 out['skipped'] += 1          # out of time, or this reader configuration has hung often enough
                 continue
             sel = [it for it in sel if ora.resolve(it) is not None]
@@ -677,9 +700,10 @@ def main():
             plus = rel.startswith('TOUGHplus')             # 5 tables: 325 ordered subsets
             k = max(4 if plus else 1, size // 220000) if QUICK else max(4, size // 50000) * (2 if plus else 1)
             jobs += [(rel, c, k) for c in range(k)]
-            jobs.append((rel, -1, 1))                      # readers opened with skip_tables: one job per file
+            # readers opened with skip_tables: one job per file; TOUGH+ (5 tables): one per set of skipped tables
+            jobs += [(rel, -1 - g, 1) for g in range(len(skip_groups(5)))] if plus else [(rel, -1000, 1)]
         # round robin over the files, the heaviest first
-        jobs.sort(key=lambda j: (max(j[1], 0), -(os.path.getsize(os.path.join(LISTDIR, j[0])) * (5 if j[0].startswith('TOUGHplus') else 1)), j))
+        jobs.sort(key=lambda j: (max(j[1], 0) if j[1] >= 0 else ((-j[1] - 1) // 2) % 500, -(os.path.getsize(os.path.join(LISTDIR, j[0])) * (5 if j[0].startswith('TOUGHplus') else 1)), j))
         res = run_jobs(jobs, tmp)
     finally:
         shutil.rmtree(tmp, ignore_errors=True)
